@@ -11,7 +11,7 @@
    unreachable case, [Lost]: an unexpected errno escaped).  [pending_bytes s] is
    the unsent rest: .txbs remainder followed by .txgs.  [tags (queued ops)] is
    every queued gram, byte by byte, in queue order. *)
-From Hio Require Import Base.Prelude Model.MemoTx Proofs.MemoTxProofs.
+From Hio Require Import Base.Prelude Model.MemoTx Proofs.MemoTxProofs Proofs.MemoTxLiveProofs.
 
 (* Conservation, for EVERY script (also unexpected errnos) and every op
    sequence: accepted-or-discarded bytes followed by the pending bytes are
@@ -91,6 +91,29 @@ Proof.
   rewrite (idle_no_bytes _ P), app_nil_r, queued_app, queued_services, app_nil_r in C. exact C.
 Qed.
 Print Assumptions C21_completion.
+
+(* Liveness without any default: for ANY script (acceptance counts incl. 0,
+   would-block and unreachable errnos, in any order) of at most m entries that
+   contains at least as many progressing results (a send that accepts >= 1 byte
+   or all, or an unreachable report) as there is work pending (1 + unsent bytes
+   per pending gram), m greedy service calls on an open peer leave nothing
+   pending.  A transport that accepts >= 1 byte infinitely often supplies such
+   a prefix for every state, so every queued gram is eventually sent in full
+   (by C21_conservation: in order, exactly once) or dropped as unreachable. *)
+Theorem C21_liveness : forall m ks s, opened s = true -> forallb expected ks = true ->
+  (length ks <= m)%nat -> (units s <= cp ks)%nat ->
+  forall s' ks' ev xs, run s ks (repeat Service m) = (s', ks', ev, xs) -> pending s' = false.
+Proof. exact liveness. Qed.
+Print Assumptions C21_liveness.
+
+Example C21_liveness_example :
+  let s := {| txgs := [([66;66;66]%N, 2%N)]; txbs := ([65;65]%N, Some 1%N); opened := true |} in
+  let ks := [KAcc 0; KAcc 1; KErr EAGAIN; KAcc 1; KAcc 1; KAcc 0; KAcc 1; KErr ENOBUFS; KAcc 1; KAcc 1; KAcc 1] in
+  forallb expected ks = true /\ units s = 7%nat /\ cp ks = 7%nat /\ length ks = 11%nat /\
+  pending (fst (fst (fst (run s ks (repeat Service 11))))) = false /\
+  sent_chunks (snd (fst (run s ks (repeat Service 11)))) =
+    [(1, [65]); (1, [65]); (2, [66]); (2, [66]); (2, [66])]%N.
+Proof. vm_compute. repeat split. Qed.
 
 (* The loop bound used by the model is never the reason a run stops. *)
 Theorem C21_fuel_adequate : forall ops ks s ks' ev xs,
